@@ -90,7 +90,7 @@ CHECKS = {
  "C02": dict(
    level="model_checking",
    text="IR is built natively by go/ir from /repo for a hand-written corpus (~230 functions), a bounded-exhaustive family of generated programs (escapes, loops, break/continue/goto, early returns), 200 (thorough 600) sampled goto-built CFGs and selected repository packages, "
-        "in 5 builder modes. Per function (<= 24 blocks quick, 60 thorough): dominance is decided by bounded path-existence SMT queries for every ordered block pair, def-dominates-use (incl. phi edges at the end of the "
+        "in 5 builder modes. Per function (<= 24 blocks quick, 28 thorough): dominance is decided by bounded path-existence SMT queries for every ordered block pair, def-dominates-use (incl. phi edges at the end of the "
         "predecessor) is read off that relation; operand/result typing is decided by the solver's sort checker over an encoding with one sort per Go type and one typed function per instruction rule (arithmetic, comparison, load/store, phi, return, field, index, map lookup/update, send, extract, closure bindings, calls), further documented rules are checked directly (MakeSlice, Slice, ChangeType, MakeInterface, TypeAssert, Alloc); "
         "terminator/phi-arity/pred-succ/operand-referrer clauses are checked as preconditions of the encoding.",
    note="Programs: corpus + generator + selected packages (thorough: more repository packages and a std subset), not all type-correct packages. Typing relaxations calibrated on the pinned tree: comparison operands may be "
